@@ -51,14 +51,33 @@ func c17Rules(c *Ctx, alias string) {
 		return
 	}
 	// the writer's partial-line buffer: its one field of type bytes.Buffer or []byte
+	// (or such a field of an unexported struct of the package that the writer holds by value: bufField is then the
+	// dotted path, bufLeaf the field's own name)
 	bufField := "buff"
+	isBufT := func(t types.Type) bool {
+		n := TypeName(t)
+		return n == "bytes.Buffer" || n == "[]byte" || n == "*bytes.Buffer"
+	}
 	if stt, ok := wn.Underlying().(*types.Struct); ok {
 		for i := 0; i < stt.NumFields(); i++ {
-			t := TypeName(stt.Field(i).Type())
-			if t == "bytes.Buffer" || t == "[]byte" || t == "*bytes.Buffer" {
-				bufField = stt.Field(i).Name()
+			f := stt.Field(i)
+			if isBufT(f.Type()) {
+				bufField = f.Name()
+			}
+			if in, isN := types.Unalias(f.Type()).(*types.Named); isN && !f.Exported() && in.Obj().Pkg() != nil && in.Obj().Pkg().Path() == ZapioPath {
+				if inner, isS := in.Underlying().(*types.Struct); isS {
+					for j := 0; j < inner.NumFields(); j++ {
+						if isBufT(inner.Field(j).Type()) {
+							bufField = f.Name() + "." + inner.Field(j).Name()
+						}
+					}
+				}
 			}
 		}
+	}
+	bufLeaf := bufField
+	if i := strings.LastIndex(bufLeaf, "."); i >= 0 {
+		bufLeaf = bufLeaf[i+1:]
 	}
 	explore := func(fn *ssa.Function, N int64) ([]string, bool, int) {
 		rn := fn.Params[0].Name()
@@ -211,7 +230,7 @@ func c17Rules(c *Ctx, alias string) {
 						return "sync"
 					}
 				case *ssa.Store:
-					if fa, ok := x.Addr.(*ssa.FieldAddr); ok && fieldName(fa.X.Type(), fa.Field) == bufField {
+					if fa, ok := x.Addr.(*ssa.FieldAddr); ok && fieldName(fa.X.Type(), fa.Field) == bufLeaf && isBuf(st, fa) {
 						// a []byte buffer: append(copy) / truncate / anything else
 						v := resolve(st, x.Val)
 						if ap, ok := v.(*ssa.Call); ok && CallBuiltin(ap) == "append" && canon(st, ap.Call.Args[0], 0) == "buf" {
